@@ -30,4 +30,112 @@ bstr *bstr_dup_mem(const void *data, size_t len) {
 void bstr_free(bstr *b) { if (b == NULL) return; free(b); }
 #endif
 
+/* =====================================================================================================
+ * Contract units (dfcc): htp_parse_uri / htp_parse_hostport with bstr_dup_mem and memchr REPLACED.
+ * ===================================================================================================== */
+#define C13_POFF(p) ((size_t) __CPROVER_POINTER_OFFSET(p))
+
+/* memchr: NULL, or a pointer to an occurrence of c inside [s, s+n).  (First-occurrence is not needed for the
+ * partition claims; the bounded units use a first-occurrence model.)  g_mc_i is the existential witness. */
+void *contract_c13_memchr(const void *s, int c, size_t n)
+__CPROVER_requires(__CPROVER_r_ok(s, n))
+__CPROVER_assigns(g_mc_i)
+__CPROVER_ensures(__CPROVER_return_value == NULL ||
+    (g_mc_i < n && __CPROVER_return_value == (void *) (UC(s) + g_mc_i) && UC(s)[g_mc_i] == (unsigned char) c))
+;
+
+/* bstr_dup_mem stub: the source range must lie inside the input buffer (ASSERTED at every call site in replace
+ * mode: "no byte is taken from anywhere else"), the call is logged, the result is NULL or a fresh bstr header. */
+#define C13_SLOT_POST(i, o, l) (__CPROVER_old(g_dup_n) == (i) ? (g_o##i == (o) && g_l##i == (l)) \
+                                                               : (g_o##i == __CPROVER_old(g_o##i) && g_l##i == __CPROVER_old(g_l##i)))
+bstr *contract_c13_dup_mem(const void *data, size_t len)
+__CPROVER_requires(g_dup_n < C13_MAXDUP)
+__CPROVER_requires(__CPROVER_same_object(data, g_uri_base) && C13_POFF(data) >= C13_POFF(g_uri_base) &&
+                   C13_POFF(data) - C13_POFF(g_uri_base) <= g_uri_len && len <= g_uri_len - (C13_POFF(data) - C13_POFF(g_uri_base)))
+__CPROVER_assigns(C13_LOG_ASSIGNS)
+__CPROVER_ensures(g_dup_n == __CPROVER_old(g_dup_n) + 1)
+__CPROVER_ensures(C13_SLOT_POST(0, C13_POFF(data) - C13_POFF(g_uri_base), len) && C13_SLOT_POST(1, C13_POFF(data) - C13_POFF(g_uri_base), len) &&
+                  C13_SLOT_POST(2, C13_POFF(data) - C13_POFF(g_uri_base), len) && C13_SLOT_POST(3, C13_POFF(data) - C13_POFF(g_uri_base), len) &&
+                  C13_SLOT_POST(4, C13_POFF(data) - C13_POFF(g_uri_base), len) && C13_SLOT_POST(5, C13_POFF(data) - C13_POFF(g_uri_base), len) &&
+                  C13_SLOT_POST(6, C13_POFF(data) - C13_POFF(g_uri_base), len) && C13_SLOT_POST(7, C13_POFF(data) - C13_POFF(g_uri_base), len))
+__CPROVER_ensures(__CPROVER_return_value == NULL || __CPROVER_is_fresh(__CPROVER_return_value, sizeof(bstr)))
+;
+
+/* ---- htp_parse_uri --------------------------------------------------------------------------------------
+ * D = bytes of the input, n = E(last slot) = length without trailing spaces.  Presence flags and slot numbers: */
+#define C13_U (*uri)
+#define C13_S ((size_t) (C13_U->scheme != NULL))
+#define C13_Un ((size_t) (C13_U->username != NULL))
+#define C13_P ((size_t) (C13_U->password != NULL))
+#define C13_H ((size_t) (C13_U->hostname != NULL))
+#define C13_T ((size_t) (C13_U->port != NULL))
+#define C13_Q ((size_t) (C13_U->query != NULL))
+#define C13_F ((size_t) (C13_U->fragment != NULL))
+#define C13_iU (C13_S)
+#define C13_iP (C13_S + C13_Un)
+#define C13_iA (C13_S + C13_Un + C13_P)                 /* first host/port slot */
+#define C13_iPath (C13_iA + C13_H + C13_T)
+#define C13_iQ (C13_iPath + 1)
+#define C13_iF (C13_iPath + 1 + C13_Q)
+#define C13_N (C13_E(g_dup_n - 1))                      /* end of the last component */
+#define C13_D (bstr_ptr(input))
+#define C13_AUTH (g_l0 + 3)                             /* start of the authority: scheme ':' '/' '/' */
+#define C13_HS (C13_Un ? (C13_P ? C13_E(C13_iP) : C13_E(C13_iU)) + 1 : C13_AUTH)   /* start of host[:port] */
+#define C13_BYTE(i, c) ((i) < bstr_len(input) && C13_D[(i)] == (c))                  /* guarded read */
+
+int contract_htp_parse_uri(bstr *input, htp_uri_t **uri)
+__CPROVER_requires(RO_BSTR(input) && __CPROVER_is_fresh(uri, sizeof(*uri)))
+__CPROVER_requires(g_c13_prealloc ? (__CPROVER_is_fresh(*uri, sizeof(htp_uri_t)) && (*uri)->scheme == NULL && (*uri)->username == NULL &&
+                                     (*uri)->password == NULL && (*uri)->hostname == NULL && (*uri)->port == NULL && (*uri)->path == NULL &&
+                                     (*uri)->query == NULL && (*uri)->fragment == NULL)
+                                  : *uri == NULL)
+__CPROVER_requires(g_uri_base == bstr_ptr(input) && g_uri_len == bstr_len(input) && g_dup_n == 0)
+__CPROVER_assigns(*uri, C13_LOG_ASSIGNS, g_mc_i; g_c13_prealloc: __CPROVER_object_whole(*uri))
+__CPROVER_ensures(__CPROVER_return_value == HTP_OK || __CPROVER_return_value == HTP_ERROR)
+__CPROVER_ensures(g_dup_n <= C13_MAXDUP)
+__CPROVER_ensures(g_c13_prealloc ==> *uri == __CPROVER_old(*uri))
+__CPROVER_ensures(__CPROVER_return_value == HTP_OK ==> *uri != NULL)
+/* every logged range lies inside the input (also asserted per call by the stub's precondition) */
+__CPROVER_ensures(gk < g_dup_n ==> (C13_O(gk) <= bstr_len(input) && C13_L(gk) <= bstr_len(input) - C13_O(gk)))
+/* a target that starts with '/' has no scheme and no authority */
+__CPROVER_ensures((__CPROVER_return_value == HTP_OK && bstr_len(input) > 0 && C13_D[0] == '/') ==>
+                  (!C13_S && !C13_Un && !C13_P && !C13_H && !C13_T))
+/* empty (or all-space) target: nothing reported */
+__CPROVER_ensures((__CPROVER_return_value == HTP_OK && g_dup_n == 0) ==>
+                  (!C13_S && !C13_Un && !C13_P && !C13_H && !C13_T && !C13_Q && !C13_F && C13_U->path == NULL &&
+                   (gk < bstr_len(input) ==> C13_D[gk] == ' ')))
+/* number of components == number of dup calls; a non-empty target always has a path */
+__CPROVER_ensures((__CPROVER_return_value == HTP_OK && g_dup_n > 0) ==> (C13_U->path != NULL && g_dup_n == C13_iPath + 1 + C13_Q + C13_F))
+/* n = end of the last component = input length minus trailing spaces; every component ends at or before n */
+__CPROVER_ensures((__CPROVER_return_value == HTP_OK && g_dup_n > 0) ==>
+                  (C13_N >= 1 && C13_N <= bstr_len(input) && C13_D[C13_N - 1] != ' ' &&
+                   ((gk >= C13_N && gk < bstr_len(input)) ==> C13_D[gk] == ' ') && (gj < g_dup_n ==> C13_E(gj) <= C13_N)))
+/* head: scheme starts at 0 and is followed by ':' */
+__CPROVER_ensures((__CPROVER_return_value == HTP_OK && g_dup_n > 0 && C13_S) ==> (g_o0 == 0 && C13_BYTE(g_l0, ':')))
+/* authority only after a scheme, introduced by "//"; user / password / '@' chain */
+__CPROVER_ensures((__CPROVER_return_value == HTP_OK && g_dup_n > 0 && C13_H) ==>
+                  (C13_S && C13_BYTE(g_l0 + 1, '/') && C13_BYTE(g_l0 + 2, '/') &&
+                   (C13_Un ? (C13_O(C13_iU) == C13_AUTH && C13_BYTE(C13_HS - 1, '@')) : !C13_P) &&
+                   (C13_P ==> (C13_O(C13_iP) == C13_E(C13_iU) + 1 && C13_BYTE(C13_E(C13_iU), ':')))))
+/* host alone: starts where userinfo ended, path starts where host ends (IP literal: see C13_IPV6_GAP) */
+__CPROVER_ensures((__CPROVER_return_value == HTP_OK && g_dup_n > 0 && C13_H && !C13_T) ==>
+                  (C13_O(C13_iA) == C13_HS &&
+                   (C13_BYTE(C13_HS, '[') ? C13_E(C13_iA) C13_IPV6_GAP C13_O(C13_iPath) : C13_E(C13_iA) == C13_O(C13_iPath))))
+/* host and port: "[...]" literal => host logged first, otherwise port logged first */
+__CPROVER_ensures((__CPROVER_return_value == HTP_OK && g_dup_n > 0 && C13_H && C13_T) ==>
+                  (C13_BYTE(C13_HS, '[')
+                   ? (C13_O(C13_iA) == C13_HS && C13_O(C13_iA + 1) >= 1 && C13_E(C13_iA) C13_IPV6_GAP C13_O(C13_iA + 1) - 1 &&
+                      C13_BYTE(C13_O(C13_iA + 1) - 1, ':') && C13_E(C13_iA + 1) == C13_O(C13_iPath))
+                   : (C13_O(C13_iA + 1) == C13_HS && C13_E(C13_iA + 1) + 1 == C13_O(C13_iA) &&
+                      C13_BYTE(C13_E(C13_iA + 1), ':') && C13_E(C13_iA) == C13_O(C13_iPath))))
+/* no authority: no user/password/port, path starts right after the scheme (or at 0) */
+__CPROVER_ensures((__CPROVER_return_value == HTP_OK && g_dup_n > 0 && !C13_H) ==>
+                  (!C13_Un && !C13_P && !C13_T && C13_O(C13_iPath) == (C13_S ? g_l0 + 1 : 0)))
+/* tail: '?' query, '#' fragment */
+__CPROVER_ensures((__CPROVER_return_value == HTP_OK && g_dup_n > 0 && C13_Q) ==>
+                  (C13_O(C13_iQ) == C13_E(C13_iPath) + 1 && C13_BYTE(C13_E(C13_iPath), '?')))
+__CPROVER_ensures((__CPROVER_return_value == HTP_OK && g_dup_n > 0 && C13_F) ==>
+                  (C13_O(C13_iF) == C13_E(C13_iF - 1) + 1 && C13_BYTE(C13_E(C13_iF - 1), '#')))
+;
+
 #endif
